@@ -132,6 +132,29 @@ fn make_socket(addr: &SocketAddr, udp: bool) -> Sock {
     Sock { fd, udp, cookie: so_cookie(fd).unwrap_or(0), bound }
 }
 
+/// one `sendmsg` with the given bytes and an SCM_RIGHTS control message: what a
+/// peer that does not go through `send_listeners` can put on the scm socket
+fn raw_send(sock: RawFd, bytes: &[u8], fds: &[RawFd]) -> bool {
+    unsafe {
+        let mut iov = libc::iovec { iov_base: bytes.as_ptr() as *mut libc::c_void, iov_len: bytes.len() };
+        let space = libc::CMSG_SPACE((fds.len() * 4) as u32) as usize;
+        let mut ctl = vec![0u8; space.max(1)];
+        let mut msg: libc::msghdr = std::mem::zeroed();
+        msg.msg_iov = &mut iov;
+        msg.msg_iovlen = 1;
+        if !fds.is_empty() {
+            msg.msg_control = ctl.as_mut_ptr() as *mut libc::c_void;
+            msg.msg_controllen = space as _;
+            let c = libc::CMSG_FIRSTHDR(&msg);
+            (*c).cmsg_level = libc::SOL_SOCKET;
+            (*c).cmsg_type = libc::SCM_RIGHTS;
+            (*c).cmsg_len = libc::CMSG_LEN((fds.len() * 4) as u32) as _;
+            std::ptr::copy_nonoverlapping(fds.as_ptr() as *const u8, libc::CMSG_DATA(c), fds.len() * 4);
+        }
+        libc::sendmsg(sock, &msg, 0) >= 0
+    }
+}
+
 fn close(fd: RawFd) {
     unsafe {
         libc::close(fd);
@@ -176,11 +199,13 @@ struct Case {
     in_flight: Option<[Vec<Entry>; 4]>,
     in_flight_bytes: usize,
     dirty: bool,
+    /// a raw message (not from `send_listeners`) is in flight: the identity oracles do not apply
+    raw_in_flight: bool,
 }
 
 impl Case {
     fn new() -> Case {
-        Case { tx: None, rx: None, socks: BTreeMap::new(), cur: HashMap::new(), in_flight: None, in_flight_bytes: 0, dirty: false }
+        Case { tx: None, rx: None, socks: BTreeMap::new(), cur: HashMap::new(), in_flight: None, in_flight_bytes: 0, dirty: false, raw_in_flight: false }
     }
     fn reset(&mut self) {
         for s in [self.tx.take(), self.rx.take()].into_iter().flatten() {
@@ -194,6 +219,7 @@ impl Case {
         }
         self.in_flight = None;
         self.dirty = false;
+        self.raw_in_flight = false;
     }
     fn open(&mut self) {
         self.reset();
@@ -327,7 +353,7 @@ impl Area for Scm {
         "scm"
     }
     fn rule(&self) -> String {
-        "hand-over cases over one unix stream pair: 1-3 rounds of send_listeners/receive_listeners with 0..270 real sockets (TCP listeners in http/tls/tcp, UDP sockets in udp; v4 short/long/any loopback, v6 loopback, full-length v6, compressed v6, v4-mapped; SO_REUSEPORT duplicates of one address; later rounds re-send the *received* descriptors like the worker->main->new-worker chain), a drain after every failed receive, receive on an empty socket; non-trivial = a round carried >= 2 listeners; distinct = distinct op sequence".into()
+        "hand-over cases over one unix stream pair (8% raw peers: a hand-written scm message whose manifest, descriptor count and address texts need not agree - more addresses than descriptors, unparsable addresses, surplus descriptors); 1-3 rounds of send_listeners/receive_listeners with 0..270 real sockets (TCP listeners in http/tls/tcp, UDP sockets in udp; v4 short/long/any loopback, v6 loopback, full-length v6, compressed v6, v4-mapped; SO_REUSEPORT duplicates of one address; later rounds re-send the *received* descriptors like the worker->main->new-worker chain), a drain after every failed receive, receive on an empty socket; non-trivial = a round carried >= 2 listeners; distinct = distinct op sequence".into()
     }
     fn cases(&self, thorough: bool) -> u64 {
         if thorough {
@@ -356,11 +382,41 @@ impl Area for Scm {
                 .collect();
             out.push(vec!["new".to_string(), send_line(&[vec![], vec![], l, vec![]]), "recv".into(), "drain".into()]);
         }
+        // raw peers: more addresses than descriptors, an address that does not parse, surplus descriptors
+        out.push(vec!["new".into(), "sendraw http=127.0.0.1:80,127.0.0.2:80,127.0.0.3:80 tls=- tcp=- udp=- fds=-".into(), "recv".into(), "drain".into()]);
+        out.push(vec!["new".into(), "sendraw http=127.0.0.1:80 tls=- tcp=bad-address udp=- fds=0,1".into(), "recv".into(), "drain".into()]);
+        out.push(vec!["new".into(), "sendraw http=127.0.0.1:80 tls=- tcp=- udp=127.0.0.9:53 fds=0,1,2,3".into(), "recv".into(), "drain".into()]);
         out.push(vec!["new".into(), "recv".into(), send_line(&[vec![], vec![], vec![], vec![]]), "recv".into(), "recv".into()]);
         out
     }
     fn gen(&self, rng: &mut Rng, _thorough: bool) -> Vec<String> {
         let mut ops = vec!["new".to_string()];
+        if rng.chance(1, 12) {
+            // a peer that writes the scm message itself: manifest and descriptors need not agree,
+            // addresses need not parse (the guards of receive_listeners before it indexes the fd array)
+            let n = *rng.pick(&[0u64, 1, 2, 3, 5, 20, 199, 200, 201]) as usize;
+            let mut lists: [Vec<String>; 4] = Default::default();
+            let bad = rng.chance(1, 3);
+            let bad_at = rng.below(n.max(1) as u64) as usize;
+            for i in 0..n {
+                let a = if bad && i == bad_at { format!("bad{i}") } else { format!("10.{}.{}.1:{}", i / 250, i % 250, 1000 + i) };
+                lists[rng.below(4) as usize].push(a);
+            }
+            let k = match rng.below(6) {
+                0 => 0,
+                1 => n.saturating_sub(1),
+                2 => n + 2,
+                3 => n / 2,
+                _ => n,
+            }
+            .min(240);
+            let show = |l: &Vec<String>| if l.is_empty() { "-".to_string() } else { l.join(",") };
+            let fds = if k == 0 { "-".to_string() } else { (0..k).map(|i| i.to_string()).collect::<Vec<_>>().join(",") };
+            ops.push(format!("sendraw http={} tls={} tcp={} udp={} fds={fds}", show(&lists[0]), show(&lists[1]), show(&lists[2]), show(&lists[3])));
+            ops.push("recv".into());
+            ops.push("drain".into());
+            return ops;
+        }
         let n = gen_count(rng);
         // address profile of the case: uniform or mixed
         let prof = rng.below(9);
@@ -509,6 +565,47 @@ impl Area for Scm {
                         }
                     }
                 }
+                "sendraw" if w.len() == 6 => {
+                    let lists: Option<Vec<Vec<String>>> = (0..4)
+                        .map(|k| {
+                            let (n, l) = w[k + 1].split_once('=')?;
+                            if n != PROTOS[k] {
+                                return None;
+                            }
+                            Some(if l == "-" { vec![] } else { l.split(',').map(|x| x.to_string()).collect() })
+                        })
+                        .collect();
+                    let ids: Option<Vec<usize>> = w[5].strip_prefix("fds=").and_then(|l| if l == "-" { Some(vec![]) } else { l.split(',').map(|x| x.parse().ok()).collect() });
+                    let (Some(lists), Some(ids), Some(tx)) = (lists, ids, c.tx.clone()) else {
+                        r.out.push("bad-op".into());
+                        continue;
+                    };
+                    if c.dirty || c.in_flight.is_some() || c.raw_in_flight {
+                        r.out.push("unmodelled".into());
+                        continue;
+                    }
+                    let any: SocketAddr = "127.0.0.1:0".parse().unwrap();
+                    let mut fds = vec![];
+                    for id in &ids {
+                        let s = c.socks.entry(*id).or_insert_with(|| {
+                            let mut s = make_socket(&any, false);
+                            s.bound = false; // bound to a port of the kernel's choice, not to a manifest address
+                            s
+                        });
+                        fds.push(c.cur.get(id).cloned().unwrap_or(s.fd));
+                    }
+                    let bytes = ListenersCount { http: lists[0].clone(), tls: lists[1].clone(), tcp: lists[2].clone(), udp: lists[3].clone() }.encode_length_delimited_to_vec();
+                    r.tags.push("send:raw".into());
+                    r.nontrivial = true;
+                    if raw_send(tx.fd, &bytes, &fds) {
+                        c.raw_in_flight = true;
+                        c.in_flight_bytes = bytes.len();
+                        r.out.push(format!("ok bytes={} fds={}", bytes.len(), fds.len()));
+                    } else {
+                        r.tags.push("send-err:raw".into());
+                        r.out.push("err send".into());
+                    }
+                }
                 "recv" if w.len() == 1 => {
                     let Some(rx) = c.rx.clone() else {
                         r.out.push("bad-op".into());
@@ -519,6 +616,7 @@ impl Area for Scm {
                         continue;
                     }
                     let sent = c.in_flight.take();
+                    let raw = std::mem::take(&mut c.raw_in_flight);
                     let res = rx.receive_listeners();
                     let by_cookie: HashMap<u64, usize> = c.socks.iter().map(|(i, s)| (s.cookie, *i)).collect();
                     match res {
@@ -537,11 +635,11 @@ impl Area for Scm {
                                             // ---- oracle: the descriptor is the listener of that address
                                             // (a scope id on a global address is not kept by the kernel)
                                             let same = getsockname(*fd).map(|g| g.ip() == addr.ip() && g.port() == addr.port()).unwrap_or(false);
-                                            if s.bound && !same {
+                                            if s.bound && !same && !raw {
                                                 r.oracle.push(("listener-fd-mispaired".into(), format!("{} {addr} came with a descriptor bound to {:?}", PROTOS[k], getsockname(*fd))));
                                             }
                                             let want_ty = if s.udp { libc::SOCK_DGRAM } else { libc::SOCK_STREAM };
-                                            if so_type(*fd) != want_ty || (k == 3) != s.udp {
+                                            if !raw && (so_type(*fd) != want_ty || (k == 3) != s.udp) {
                                                 r.oracle.push(("listener-fd-mispaired".into(), format!("{} {addr}: wrong socket type", PROTOS[k])));
                                             }
                                             if let Some(old) = c.cur.insert(id, *fd) {
@@ -568,7 +666,7 @@ impl Area for Scm {
                                     let class = if ng < ns { "listener-lost" } else { "listener-fd-mispaired" };
                                     r.oracle.push((class.into(), format!("sent {ns} listeners, received {ng}; lists differ")));
                                 }
-                                None if got_ids.iter().any(|l| !l.is_empty()) => {
+                                None if !raw && got_ids.iter().any(|l| !l.is_empty()) => {
                                     r.oracle.push(("listener-from-nowhere".into(), "listeners received although nothing was in flight".into()));
                                 }
                                 _ => {}
@@ -578,6 +676,9 @@ impl Area for Scm {
                         Err(e) => {
                             let k = err_kind(&e);
                             r.tags.push(format!("recv-err:{k}"));
+                            if raw {
+                                c.dirty = true;
+                            }
                             if let Some(sent) = &sent {
                                 c.dirty = true;
                                 let n: usize = sent.iter().map(|l| l.len()).sum();
